@@ -107,7 +107,37 @@ func obsAliasTree(s stackage.Stack) string {
 	})
 }
 
+// namesakes: values of unrelated local types that print exactly like the harness's alias types ("main.AStack", ...).
+// Whether a value is an alias is a matter of its type, not of its type's name: feeding the namesakes to the converters
+// (before and after the real aliases) must change nothing.
+func namesakes() []any {
+	type AStack struct{ X int }
+	type SStack struct{ X int }
+	type ACond struct{ X string }
+	type SCond struct{ X string }
+	return []any{AStack{1}, &AStack{2}, SStack{3}, ACond{"x"}, &ACond{"y"}, SCond{"z"}}
+}
+
+func feedNamesakes() string {
+	return guard(func() string {
+		out := ""
+		for _, x := range namesakes() {
+			_, s1 := stackage.ConvertStack(x)
+			_, c1 := stackage.ConvertCondition(x)
+			out += b01(s1) + b01(c1)
+		}
+		if out != "000000000000" {
+			return "NAMESAKE-CONVERTED:" + out
+		}
+		return ""
+	})
+}
+
 func runAlias(payload string) string {
+	if bad := feedNamesakes(); bad != "" {
+		return bad
+	}
+	defer feedNamesakes()
 	v, _ := parseV(strings.Fields(payload))
 	a := BuildStack(v)
 	n := BuildStack(eraseV(v))
